@@ -40,34 +40,27 @@
 
 (define (merge! ls1 ls2 less . o)
   (let ((key (if (pair? o) (car o) (lambda (x) x))))
-    (define (lp prev ls1 ls2 a b less key)
-      (cond
-       ((less a b)
-        (if (null? (cdr ls1))
-            (set-cdr! ls1 ls2)
-            (lp ls1 (cdr ls1) ls2 (key (car (cdr ls1))) b less key)))
-       (else
-        (set-cdr! prev ls2)
-        (if (null? (cdr ls2))
-            (set-cdr! ls2 ls1)
-            (lp ls2 (cdr ls2) ls1 (key (car (cdr ls2))) a less key)))))
     (cond
      ((null? ls1) ls2)
      ((null? ls2) ls1)
      (else
-      (let ((a (key (car ls1)))
-            (b (key (car ls2))))
-        (cond
-         ((less a b)
-          (if (null? (cdr ls1))
-              (set-cdr! ls1 ls2)
-              (lp ls1 (cdr ls1) ls2 (key (car (cdr ls1))) b less key))
-          ls1)
-         (else
-          (if (null? (cdr ls2))
-              (set-cdr! ls2 ls1)
-              (lp ls2 (cdr ls2) ls1 (key (car (cdr ls2))) a less key))
-          ls2)))))))
+      ;; stable: on ties the element of ls1 comes first, so an element
+      ;; of ls2 is taken only when it is strictly less
+      (let* ((take2? (less (key (car ls2)) (key (car ls1))))
+             (head (if take2? ls2 ls1)))
+        (let lp ((tail head)
+                 (a (if take2? ls1 (cdr ls1)))
+                 (b (if take2? (cdr ls2) ls2)))
+          (cond
+           ((null? a) (set-cdr! tail b))
+           ((null? b) (set-cdr! tail a))
+           ((less (key (car b)) (key (car a)))
+            (set-cdr! tail b)
+            (lp b a (cdr b)))
+           (else
+            (set-cdr! tail a)
+            (lp a (cdr a) b))))
+        head)))))
 
 (define (merge ls1 ls2 less . o)
   (let ((key (if (pair? o) (car o) (lambda (x) x))))
